@@ -33,6 +33,8 @@ def check(chk):
     r75(chk, m)
     r77(chk, m)
     r78(chk, m)
+    from . import shared
+    shared.grouping_rules(chk, m, 'R7.9')
     chk.decline('word order and multiplicity for concrete documents; parent chains of every generated tree (runtime)')
 
 
